@@ -24,6 +24,7 @@ func beaconLockset(c *core.Ctx, r *core.Rule) {
 
 func c11(c *core.Ctx) {
 	p := c.P
+	curProg = p
 	c.Explain = "Static necessary conditions for disjoint, matching, ordered claims: every read and write of the index containers happens under the index mutex and each claim function evaluates its selection predicate and removes the claimed records inside one write-locked region; the predicate the gateway hands to the claim functions evaluates the caller's complete filter (the pre-computed candidate key set is only a fast reject); every claim append is guarded by the count limit and iterates the ordered slice in order; the expiry claims use the specified 'expired' predicate; every record appended to the ordered slice is a member of the key map (taken from it, stored into it in the same critical section, copied from the ordered slice, or membership-checked), so a record deleted elsewhere cannot be re-inserted by a claim."
 	c.NotCovered = []string{"disjointness over real interleavings", "that clones returned to callers reflect the claimed version", "lock-order between index mutex and record guards (claims hold the index mutex while waiting for a record guard, saves hold the guard while taking the index mutex)"}
 
@@ -332,6 +333,7 @@ func expiredClaimCases(c *core.Ctx, r *core.Rule, key string) {
 
 func c12(c *core.Ctx) {
 	p := c.P
+	curProg = p
 	c.Explain = "Static necessary conditions for cap enforcement: the count that seeds the budget is taken while the cap mutex is held; every cap-bearing entry point takes the cap mutex on its cap branch and releases it only at exit; in PatchFields budget is consumed exactly on the not-matching -> matching transition, after the budget <= 0 rejection and before the content write; in the beacon the cap count and the selection run in one write-locked region and the effective limit never exceeds the remaining budget."
 	c.NotCovered = []string{"cap invariants over real interleavings", "operations that do not carry the cap (by the statement's premise)", "cap predicates that depend on state outside the record"}
 
